@@ -34,8 +34,8 @@ def run(m, chk):
         "weights of both operands; the ValueError interval test of KnotVector.split precedes the asserting heavy layer; no divisor on the split path is a bare node parameter (cut at 0). "
         "Equality of each piece with the original and the junction multiplicity are not decided."
     )
-    chk.decides = ["PURE/FRESH(split, |)", "DEP-MUST weights of the pieces / of the joined curve", "GATE(max(A) = min(B))", "X-ASSERT(split)", "D", 'INTERVAL (pieces / join built on the operand knot values)', 'MULT-KEEP', 'DEP-MAY(pieces depend on the weights)', 'ELEM-COVER (the join reads the first control point of the right operand)']
-    chk.not_decided = ["each piece equals the original on its sub-interval", "junction knot multiplicity after joining"]
+    chk.decides = ["PURE/FRESH(split, |)", "DEP-MUST weights of the pieces / of the joined curve", "GATE(max(A) = min(B))", "X-ASSERT(split)", "D", 'INTERVAL (pieces / join built on the operand knot values)', 'MULT-KEEP', 'DEP-MAY(pieces depend on the weights)', 'ELEM-COVER (the join reads the first control point of the right operand)', 'CLEAN-JUNCTION (every joined curve passes through knot_clean at the junction)']
+    chk.not_decided = ["each piece equals the original on its sub-interval", "that knot_clean reaches the minimal junction multiplicity (C14)"]
     r.pure("PURE", SPLIT, ["self", "nodes"])
     r.fresh_result("FRESH", SPLIT)
     r.pure("PURE", OR, ["self", "other"])
@@ -138,6 +138,16 @@ def run(m, chk):
     chk.ob("ELEM-COVER", f"{OR}: the first control point of `{fi.params[1]}` is read", okc, loc=r.loc(ctx, reads[0][0]) if reads else r.loc(ctx, fi.node),
            detail="" if okc else f"{OR}: every read of the right operand's control points is `…ctrlpoints[k:]` with k >= 1 — its first control point B(min B) never reaches the result and is never compared with A's last point: for a junction that is not continuous (A | B)(u) differs from B(u) on the first span of B",
            func=OR, construct="first control point of the right operand dropped")
+    # every joined curve goes through knot_clean at the junction (polynomial AND rational): the join is assembled with
+    # multiplicity degree+1 there, which is only what the curve needs when the junction is discontinuous
+    cleans = [c.cfgnode for c in ctx.calls if any(f.name == "knot_clean" for f in c.callees)]
+    for nid in sorted(ctx.ret_sites):
+        okc = any(ctx.cfg.dominates(c, nid) for c in cleans)
+        chk.ob("CLEAN-JUNCTION", f"{OR}: `{seg(ctx.cfg.nodes[nid].ast, 30)}` only after knot_clean at the junction", okc, loc=r.loc(ctx, ctx.cfg.nodes[nid].ast),
+               detail="" if okc else f"{OR}: a joined curve is returned at {r.loc(ctx, ctx.cfg.nodes[nid].ast)} without `knot_clean([junction])`: the junction keeps the multiplicity degree+1 it is assembled with, so joining the pieces of a split does not give back the original knot vector", func=OR, construct="join returned without cleaning the junction")
+    from .homog import weight_homog
+
+    weight_homog(r, chk, [SPLIT])
     rule_d(r, chk, [SPLIT], floor=4)
     from .extra import interval_from_operand, mult_keep
 
